@@ -487,8 +487,8 @@ def cfg(tier, seed):
         out.append(dict(obs="gr", tr="image", cell="t+", ppp=[1, 1, 1], arg=None, params=dict(Bmax=1), d=3, N=3, F=1, types=[1, 2, 2]))
         out.append(dict(obs="gr", tr="axes", cell="sym-o", ppp=[1, 1, 1], arg=[2, 0, 1], params=dict(Bmax=1), d=3, N=3, F=1, types=[1, 2, 2]))
         out.append(dict(obs="boo3d", tr="relabel", cell="o", ppp=[1, 1, 1], arg=[1, 2, 0], params=dict(l=6, topo=TOPO3), **three))
-        out.append(dict(obs="tetra", tr="rotate", cell="o", ppp=[0, 0, 0], arg=1, **tet))
-        out.append(dict(obs="tetra", tr="rotate", cell="o", ppp=[0, 0, 0], arg=2, **tet))
+        out.append(dict(obs="tetra", tr="rotate", cell="o", ppp=[0, 0, 0], arg=1, params=dict(symcoords=2), **tet))
+        out.append(dict(obs="tetra", tr="rotate", cell="o", ppp=[0, 0, 0], arg=2, params=dict(symcoords=2), **tet))
         out.append(dict(obs="gyr", tr="rotate", cell="o", ppp=[0, 0, 0], arg=2, d=3, N=3, F=1, types=[1, 1, 1]))
     return out
 
